@@ -39,7 +39,13 @@ RULE = ("Boxes are built by construction from (magnitude 1e-8..1e8, offset class
         "scalars), sizes spelled as int / float / NumPy integer scalar / narrow integer array / list of NumPy scalars / "
         "float32-64 array, three width classes: n in 2..300 with ALL indices the dtype can hold, n in 8000..70000 and n in "
         "2**30..2**32 with indices around 0, n/2, n-1, the top of the dtype and a half / a quarter of it; non-trivial = twice "
-        "the largest index (or twice n-1) is not representable in the narrow dtype it was passed in.")
+        "the largest index (or twice n-1) is not representable in the narrow dtype it was passed in. "
+        "reject: EVERY (map, kind, d in 1..4, mismatched option(s) a / b / n / ab / abn, length L in {1,2,3,4,6,8} other than d, spelling "
+        "list / array / tuple / list or tuple of NumPy scalars, other options as numbers or as length-d sequences, batch of 1..4 "
+        "points); each case calls the batch (array and nested list) AND every single point of it. "
+        "single_batch: options independently spelled as number / NumPy scalar (float64, float32, int64, int16 where exact) / "
+        "list / tuple / array / list or tuple of NumPy scalars, d in 1..4, 1..5 points of all point classes, every row compared; "
+        "non-trivial = >= 2 points and a spelling other than number / list / array.")
 TOLERANCES = ("round trip: exact; node in box / end node: 8 (uni), 16 (cheb) ulp(M); node position vs independent float "
               "reference: 16 / 32 ulp(M); arbitrary point: exists x' within 2 ulp(M) with |I - t(x')| <= 0.5 + 4 eps (n-1) "
               "(uni, Fraction) / 0.5 + 8 eps (n-1) with 8 eps slack on the arccos argument (cheb); poi_scale: 4 eps |r| "
@@ -49,12 +55,19 @@ TOLERANCES = ("round trip: exact; node in box / end node: 8 (uni), 16 (cheb) ulp
               "identical bits (uni, poi_scale), 4 ulp(M) (cheb nodes: np.cos on a different array shape); cdf: 4 eps; index / size "
               "dtype spellings vs the int64 / Python-int spelling: identical bits (uni nodes, all indices), 4 ulp(M) (cheb nodes), "
               "plus the 16 / 32 ulp(M) node reference in Python int / float arithmetic; index dtype of poi_to_ind: integer "
-              "with max >= n - 1")
+              "with max >= n - 1; single_batch: every row of a batch vs its single-point call: identical bits (uni, poi_scale), "
+              "4 ulp(M) (cheb nodes), equal or both admissible at a tie (cheb indices); spelled options vs plain lists: identical bits")
 ASSUMPTIONS = [
     "resolution precondition (b-a)/(n-1) >= 2**12 ulp(max(|a|,|b|)); for kind='cheb' additionally "
     "(b-a)/2*(1-cos(pi/(n-1))) >= 2**12 ulp(max(|a|,|b|)) (smallest Chebyshev cell); built in by widening the box",
     "a < b per dimension, n >= 2, finite points, custom limits a_new < b_new with |a_new|,|b_new| <= 2e3",
-    "documented option types only: int/float scalars, lists, 1-D ndarrays",
+    "documented option types (int/float scalars, lists, 1-D ndarrays) everywhere; reject and single_batch additionally spell "
+    "options as tuples, lists / tuples of NumPy scalars and (a, b; n of ind_to_poi) NumPy scalars: the maps take them through "
+    "np.asanyarray like lists (observed on the unmodified tree; a correct-length tuple must give the answer of the list)",
+    "reject: an option of a length L != d is asserted to raise ValueError (i) where grid_prep_opts validates it (documented "
+    "Note; list / ndarray a, b, and n of ind_to_poi) and (ii) where 2 <= L != d >= 2 (no elementwise operation of [.., L] with "
+    "[.., d] exists) - for the batch and for each single point alike.  L == 1 and d == 1 are broadcast by NumPy (or fail with "
+    "IndexError in poi_to_ind) on the unmodified tree: there only 'batch accepted <=> every single point accepted' is asserted",
     "grid_flat returns [samples, d] (what func_full passes to ind_to_poi), not the [d, samples] of its docstring",
     "cdf_getter: finite 1-D sample, finite query points",
     "index_dtypes: every index / size is exactly representable in the dtype it is passed in; float index arrays are float64 "
@@ -67,7 +80,8 @@ ASSUMPTIONS = [
 EPS = float(np.finfo(float).eps)
 RES = 4096.0
 HALF = Fr(1, 2)
-STRICT_N_LENGTH = False     # see prop_reject: the length of `n` in poi_to_ind is not covered by a documented contract
+# (STRICT_N_LENGTH is gone: "poi_to_ind rejects every n of a wrong length" was a false alarm for d == 1, where a longer list is
+#  broadcast; length_verdict() now states per call shape what is asserted and what is only observed.)
 TINY = Fr(1, 10 ** 300)
 
 
@@ -722,56 +736,247 @@ def prop_prep(case, ctx):
         ctx.check(ok, "grid_prep_opt: wrong prepared option", which="abn"[k], got=one, want=want, d=d, reps=reps)
 
 
+# Spellings of a per-dimension option.  list / array are the documented ones; a tuple, a list / tuple of NumPy scalars are
+# sequence-likes the maps turn into arrays with np.asanyarray (callers do write a=(0., 1.)).
+SEQ_SPELL = ["list", "array", "tuple", "list_np", "tuple_np"]
+
+
+def spell_seq(vals, sp, is_n=False):
+    """The values of one option (Python numbers) in the sequence spelling sp."""
+    vals = [int(v) for v in vals] if is_n else [float(v) for v in vals]
+    if sp == "list":
+        return list(vals)
+    if sp == "tuple":
+        return tuple(vals)
+    if sp == "array":
+        return np.array(vals, dtype=int if is_n else float)
+    cast = np.int64 if is_n else np.float64
+    if sp == "list_np":
+        return [cast(v) for v in vals]
+    if sp == "tuple_np":
+        return tuple(cast(v) for v in vals)
+    raise AssertionError("unknown spelling " + sp)
+
+
+def length_verdict(fn, which, cont, d, L):
+    """What the property demands for an option of length L != d:
+      "documented" - the option passes the length validation of grid_prep_opts (a, b everywhere, n of ind_to_poi, spelled
+                     as list / ndarray): ValueError by its docstring ("In case of a mismatch in the size of the arrays ...");
+      "structural" - the option is not validated up front (a tuple; n of poi_to_ind in any spelling), but 2 <= L != d >= 2:
+                     the option is one value per dimension, so it meets the points / indices of shape [..., d] in an
+                     elementwise operation that cannot be carried out - neither for one point ([L] against [d]) nor for a
+                     batch ([samples, L] against [samples, d]).  "Inconsistent option lengths are rejected" and "single points
+                     and batches give the same answers" => ValueError for both call shapes;
+      "observe"    - L == 1 (NumPy broadcasts one value over the dimensions; poi_to_ind(n=[5]) raises IndexError for d >= 2)
+                     or d == 1 (one coordinate is broadcast against L values and the result has L columns): the unmodified
+                     code does not reject for a reason the property names, so only the agreement of the two call shapes
+                     (both answer / both refuse) is asserted and the outcome is labelled."""
+    validated = cont in ("list", "array", "list_np") and not (fn == "poi_to_ind" and which == "n")
+    if validated:
+        return "documented"
+    if d >= 2 and L >= 2 and L != d:
+        return "structural"
+    return "observe"
+
+
 def reject_cases(tier, shard, nshards):
     j = 0
     for fn in ("ind_to_poi", "poi_to_ind", "poi_scale"):
-        for kind in ("uni", "cheb"):
-            for d in (1, 2, 3):
-                for which in ("a", "b", "n", "ab"):
-                    if fn == "poi_scale" and which == "n":
+        for kind in ("uni", "cheb", "custom"):
+            if kind == "custom" and fn != "poi_scale":
+                continue
+            for d in (1, 2, 3, 4):
+                for which in ("a", "b", "n", "ab", "abn"):
+                    if fn == "poi_scale" and "n" in which:
                         continue
-                    for L in (1, 2, 3, 4):
+                    for L in (1, 2, 3, 4, 6, 8):
                         if L == d:
                             continue
-                        for cont in ("list", "array"):
-                            for batch in (0, 1, 3):
-                                if j % nshards == shard:
-                                    yield {"fn": fn, "kind": kind, "d": d, "which": which, "L": L, "cont": cont, "batch": batch}
-                                j += 1
+                        for cont in SEQ_SPELL:
+                            for others in ("scalar", "seq"):
+                                for m in (1, 2, 3, 4):
+                                    if j % nshards == shard:
+                                        yield {"fn": fn, "kind": kind, "d": d, "which": which, "L": L, "cont": cont,
+                                               "others": others, "batch": m}
+                                    j += 1
 
 
 def prop_reject(case, ctx):
-    fn, kind, d, which, L, cont, batch = (case[k] for k in ("fn", "kind", "d", "which", "L", "cont", "batch"))
-    mk = (lambda v: np.array(v)) if cont == "array" else (lambda v: list(v))
-    a = mk([-1.0] * L) if "a" in which else -1.0
-    b = mk([2.0] * L) if "b" in which else 2.0
-    n = mk([5] * L) if which == "n" else 5
+    fn, kind, d, which, L, cont, m = (case[k] for k in ("fn", "kind", "d", "which", "L", "cont", "batch"))
+    others = case.get("others", "scalar")
+    m = max(int(m), 1)
+
+    def opt(name, lo, step, is_n):
+        # distinct values per dimension (a cyclic refill / a truncation of a wrong-length option would be a different grid per row)
+        if name in which:
+            return spell_seq([lo + step * k for k in range(L)], cont, is_n)
+        if others == "seq":
+            return spell_seq([lo + step * k for k in range(d)], cont, is_n)
+        return int(lo) if is_n else float(lo)
+
+    a, b, n = opt("a", -1.0, -0.25, False), opt("b", 2.0, 0.5, False), opt("n", 5, 2, True)
+    karg = [-3.0, 7.0] if kind == "custom" else kind
     if fn == "ind_to_poi":
-        P = np.ones((batch, d), dtype=int) if batch else np.ones(d, dtype=int)
-        ctx.raises(ValueError, teneva.ind_to_poi, P, a, b, n, kind)
-        ctx.lib(teneva.ind_to_poi, P, -1.0, 2.0, 5, kind)                       # the consistent call is accepted
+        P = (np.arange(m * d, dtype=int).reshape(m, d) * 3 + 1) % 5                     # indices in 0..4 (every n >= 5)
+        call = lambda pts, aa=a, bb=b, nn=n: teneva.ind_to_poi(pts, aa, bb, nn, karg)
+        good = lambda pts: teneva.ind_to_poi(pts, -1.0, 2.0, 5, karg)
     elif fn == "poi_scale":
-        P = np.full((batch, d), 0.5) if batch else np.full(d, 0.5)
-        ctx.raises(ValueError, teneva.poi_scale, P, a, b, kind)
-        ctx.lib(teneva.poi_scale, P, -1.0, 2.0, kind)
+        P = -1.5 + 0.37 * np.arange(m * d, dtype=float).reshape(m, d)                   # inside, and outside the box
+        call = lambda pts, aa=a, bb=b: teneva.poi_scale(pts, aa, bb, karg)
+        good = lambda pts: teneva.poi_scale(pts, -1.0, 2.0, karg)
     else:
-        P = np.full((batch, d), 0.5) if batch else np.full(d, 0.5)
-        if which == "n":
-            # poi_to_ind prepares n with grid_prep_opt, i.e. WITHOUT the documented length validation of grid_prep_opts,
-            # and its docstring promises no rejection: for d == 1 a longer list is silently broadcast to [samples, L],
-            # otherwise NumPy raises IndexError / ValueError.  Only observed (label), asserted with STRICT_N_LENGTH.
+        P = -1.5 + 0.37 * np.arange(m * d, dtype=float).reshape(m, d)
+        call = lambda pts, aa=a, bb=b, nn=n: teneva.poi_to_ind(pts, aa, bb, nn, karg)
+        good = lambda pts: teneva.poi_to_ind(pts, -1.0, 2.0, 5, karg)
+    call.__name__ = good.__name__ = fn
+
+    verdict = length_verdict(fn, which, cont, d, L)
+    if verdict in ("documented", "structural"):
+        # rejected for a batch exactly as for every single point of it
+        ctx.raises(ValueError, call, P)
+        ctx.raises(ValueError, call, P.tolist())
+        for r in range(m):
+            ctx.raises(ValueError, call, P[r])
+    else:
+        def outcome(pts):
             try:
-                teneva.poi_to_ind(P, a, b, n, kind)
-            except Exception:   # noqa: BLE001
-                ctx.label("poi_to_ind_n_mismatch:raised")
-            else:
-                ctx.label("poi_to_ind_n_mismatch:accepted")
-                ctx.check(not STRICT_N_LENGTH, "poi_to_ind accepted a grid size list whose length differs from d", d=d, L=L)
-        else:
-            ctx.raises(ValueError, teneva.poi_to_ind, P, a, b, n, kind)
-        ctx.lib(teneva.poi_to_ind, P, -1.0, 2.0, 5, kind)
-    ctx.label("fn:" + fn, "which:" + which)
+                res = call(pts)
+            except Exception as e:   # noqa: BLE001 - observed only, see length_verdict
+                return "raised:" + type(e).__name__, None
+            return "accepted", res
+        ob, rb = outcome(P)
+        singles = [outcome(P[r]) for r in range(m)]
+        os_ = sorted({o for o, _ in singles})
+        ctx.label("%s_%s_mismatch(%s):batch_%s" % (fn, which, "L=1" if L == 1 else "d=1", ob))
+        ctx.check((ob == "accepted") == all(o == "accepted" for o, _ in singles) and
+                  (ob != "accepted") == all(o != "accepted" for o, _ in singles),
+                  "an option of a length different from d is accepted for a batch but refused for its single points (or the "
+                  "other way round): single points and batches do not give the same answers",
+                  fn=fn, which=which, spelling=cont, d=d, L=L, samples=m, batch=ob, single=os_)
+    # the consistent call is accepted, for the batch and for each point
+    ctx.lib(good, P)
+    for r in range(m):
+        ctx.lib(good, P[r])
+    ctx.label("fn:" + fn, "which:" + which, "spelling:" + cont, "verdict:" + verdict)
     ctx.nontrivial(True)
+
+
+# ------------------------------------------------------------------------------------------- batch == stack of the single points
+
+OPT_SPELL = ["scalar", "np_scalar"] + SEQ_SPELL
+
+
+def np_scalar_types(v, is_n):
+    """NumPy scalar types that hold the Python number v exactly."""
+    if is_n:
+        return [t for t in ("int64", "int32", "int16", "uint16", "uint8") if int(v) <= int(np.iinfo(t).max)]
+    out = ["float64"]
+    if math.isfinite(v) and float(np.float32(v)) == v:
+        out.append("float32")
+    if v == int(v) and abs(v) < 2 ** 15:
+        out += ["int64", "int16"]
+    return out
+
+
+def spell_opt(vals, sp, npt, is_n):
+    if sp == "scalar":
+        return pass_opt(vals, "scalar")
+    if sp == "np_scalar":
+        if any(v != vals[0] for v in vals):
+            raise AssertionError("scalar form needs equal options")
+        if npt not in np_scalar_types(vals[0], is_n):
+            raise AssertionError("the value does not fit the NumPy scalar type " + npt)
+        return np.dtype(npt).type(vals[0])
+    return spell_seq(vals, sp, is_n)
+
+
+@st.composite
+def stack_cases(draw, tier):
+    kind = draw(st.sampled_from(["uni", "cheb", "custom"]))
+    d = draw(st.integers(1, 4))
+    sp = [draw(st.sampled_from(OPT_SPELL)) for _ in range(3)]
+    same = any(x in ("scalar", "np_scalar") for x in sp)
+    cls, a, b, n = draw(boxes_with_n(tier, kind, d, same))
+    npt = [draw(st.sampled_from(np_scalar_types(v[0], k == 2))) for k, v in enumerate((a, b, n))]
+    m = draw(st.integers(1, 5 if tier == "quick" else 9))
+    X = [[draw(coords(kind, a[k], b[k], n[k]))[1] for k in range(d)] for _ in range(m)]
+    I = [[draw(st.integers(0, n[k] - 1)) for k in range(d)] for _ in range(m)]
+    case = {"kind": kind, "a": a, "b": b, "n": n, "sp": sp, "npt": npt, "X": X, "I": I,
+            "pform": draw(st.sampled_from(["array", "list"])), "cls": cls}
+    if kind == "custom":
+        lo = draw(st.one_of(st.integers(-5, 5).map(float), st.floats(-1e3, 1e3, allow_nan=False)))
+        hi = lo + draw(st.one_of(st.integers(1, 5).map(float), st.floats(1e-3, 1e3, allow_nan=False)))
+        case["lim"] = [lo, hi if hi > lo else lo + 1.0]
+    return case
+
+
+def prop_stack(case, ctx):
+    """A batch is the stack of its single points - for every row, and whatever the spelling of the options (number, NumPy
+    scalar, list, tuple, array, list / tuple of NumPy scalars); and the spelling does not change the batch result."""
+    kind, a, b, n, sp, npt = case["kind"], case["a"], case["b"], case["n"], case["sp"], case["npt"]
+    d = len(a)
+    gk = "uni" if kind == "uni" else "cheb"
+    for k in range(d):
+        require_pre(a[k], b[k], n[k], gk)
+    X, I = np.array(case["X"], dtype=float), np.array(case["I"], dtype=int)
+    m = X.shape[0]
+    aa, bb = spell_opt(a, sp[0], npt[0], False), spell_opt(b, sp[1], npt[1], False)
+    nn = spell_opt(n, sp[2], npt[2], True)
+    # NumPy integer scalars as n are asserted for ind_to_poi only (see ASSUMPTIONS); poi_to_ind gets the Python int then
+    nn_p2i = int(n[0]) if sp[2] == "np_scalar" else nn
+    karg = case["lim"] if kind == "custom" else kind
+    U = np.array([ulp(scale_of(a[k], b[k])) for k in range(d)])
+    info = dict(kind=kind, spellings=sp, np_types=npt, d=d, samples=m)
+
+    def pts(P, r=None):
+        Q = P if r is None else P[r]
+        return Q if case["pform"] == "array" else Q.tolist()
+
+    def stack(fn, what, P, ref_args, args, tol, isint):
+        R = ctx.lib(fn, P, *ref_args)                                             # plain lists, array batch
+        B = ctx.lib(fn, pts(P), *args)
+        ok = isinstance(B, np.ndarray) and B.shape == (m, d) and B.dtype.kind == ("i" if isint else "f")
+        ctx.check(ok, what + ": the batch result is not an array [samples, d] of the documented kind",
+                  got=repr(getattr(B, "shape", None)), **info)
+        ctx.check(B.dtype == R.dtype and np.array_equal(B, R), what + ": option forms are not interchangeable (different result)",
+                  got=B, ref=R, **info)
+        rows = []
+        for r in range(m):
+            s = ctx.lib(fn, pts(P, r), *args)
+            ctx.check(isinstance(s, np.ndarray) and s.shape == (d,) and s.dtype == B.dtype,
+                      what + "(single): the result is not a vector of length d of the dtype of the batch result",
+                      got=repr(getattr(s, "shape", None)), row=r, **info)
+            rows.append(s)
+        S = np.stack(rows)
+        bad = tol(S, B)
+        if bad.any():
+            r, k = [int(v[0]) for v in np.nonzero(bad)]
+            ctx.check(False, what + ": the batch is not the stack of the single-point results", row=r, dim=k,
+                      single=S[r, k], batch=B[r, k], point=P[r, k], a=a[k], b=b[k], **info)
+        return B
+
+    exact = lambda S, B: S != B
+    if kind != "custom":
+        near = exact if kind == "uni" else (lambda S, B: np.abs(S - B) > 4 * U[None, :])
+        stack(teneva.ind_to_poi, "ind_to_poi", I, (list(a), list(b), [int(v) for v in n], kind), (aa, bb, nn, kind), near, False)
+
+        def unique_only(S, B):
+            # Chebyshev grid: np.arccos on a vector vs on a matrix may differ in the last bit, which matters at a tie only
+            bad = S != B
+            for r, k in zip(*np.nonzero(bad)):
+                jlo, jhi = index_bounds(kind, X[r, k], a[k], b[k], n[k])
+                if jhi > jlo and jlo <= S[r, k] <= jhi and jlo <= B[r, k] <= jhi:
+                    bad[r, k] = False
+            return bad
+        stack(teneva.poi_to_ind, "poi_to_ind", X, (list(a), list(b), [int(v) for v in n], kind), (aa, bb, nn_p2i, kind),
+              exact if kind == "uni" else unique_only, True)
+    stack(teneva.poi_scale, "poi_scale", X, (list(a), list(b), karg), (aa, bb, karg), exact, False)
+    ctx.inner(int(m))
+    ctx.label("kind:" + kind, "d:%d" % d, "points:" + case["pform"], *("%s:%s" % ("abn"[k], sp[k]) for k in range(3)))
+    for k in range(3):
+        if sp[k] == "np_scalar":
+            ctx.label("%s:np.%s" % ("abn"[k], npt[k]))
+    ctx.nontrivial(m >= 2 and any(x not in ("scalar", "list", "array") for x in sp))
 
 
 # ------------------------------------------------------------------------------------------- empirical CDF
@@ -1118,5 +1323,6 @@ SUBCHECKS = [
     Sub("grid_flat_small", prop_grid_flat, enumerate=grid_flat_small, exhaustive=True),
     Sub("prep_opts", prop_prep, enumerate=prep_cases, exhaustive=True),
     Sub("reject", prop_reject, enumerate=reject_cases, exhaustive=True),
+    Sub("single_batch", prop_stack, strategy=stack_cases, quick=100, thorough=1500),
     Sub("cdf", prop_cdf, strategy=cdf_cases, quick=150, thorough=2500),
 ]
